@@ -14,7 +14,7 @@ from pyiron_snippets.colors import SeabornColors
 from pyiron_snippets.dotdict import DotDict
 
 from pyiron_workflow.create import HasCreator
-from pyiron_workflow.mixin.lexical import LexicalParent
+from pyiron_workflow.mixin.lexical import LexicalParent, _ensure_path_is_not_cyclic
 from pyiron_workflow.node import Node
 from pyiron_workflow.topology import set_run_connections_according_to_dag
 
@@ -377,6 +377,10 @@ class Composite(LexicalParent[Node], HasCreator, Node, ABC):
                 f"Expected replacement node to be a node instance or node subclass, but "
                 f"got {replacement}"
             )
+
+        # Fail before mutating anything if the replacement could not be adopted
+        replacement_node._check_parent(self)
+        _ensure_path_is_not_cyclic(self, replacement_node)
 
         replacement_node.copy_io(
             owned_node_instance
